@@ -874,4 +874,154 @@ theorem specCore_shaped (c : Core) (d d' : DVal) (h : specCore c d = .ok d') : d
     cases h1 : projMat c J m <;> rw [h1] at h <;> simp [pure, Except.pure] at h
     subst h; exact projMat_shaped c J _ m h1
 
+
+theorem map_ok_inv {α β} (f : α → β) (x : Except Err α) (b : β) (h : f <$> x = .ok b) : ∃ a, x = .ok a ∧ f a = b := by
+  cases x with
+  | error e => simp [Functor.map, Except.map] at h
+  | ok a => simp [Functor.map, Except.map] at h; exact ⟨a, rfl, h⟩
+
+theorem specLeft_shaped (op : BinOp) (a : Const) (d d' : DVal) (hd : d.Shaped) (h : specLeft op a d = .ok d') :
+    d'.Shaped := by
+  unfold specLeft at h
+  split at h
+  all_goals try (cases h; done)
+  all_goals try (obtain ⟨_, _, rfl⟩ := map_ok_inv _ _ _ h; trivial)
+  all_goals try (split at h <;> cases h <;> first | trivial | exact matMul_row_length _ _ _)
+  all_goals first
+    | (cases h; exact hd)
+    | (cases h
+       intro row hrow
+       obtain ⟨row0, hrow0, rfl⟩ := List.mem_map.mp hrow
+       simpa using hd row0 hrow0)
+    | (obtain ⟨X', hX', rfl⟩ := map_ok_inv _ _ _ h
+       intro row hrow
+       obtain ⟨row0, hrow0, hf⟩ := mapE_mem _ _ _ hX' row hrow
+       rw [mapE_length _ _ _ hf]
+       exact hd row0 hrow0)
+    | (split at h
+       · cases h
+       · obtain ⟨_, _, rfl⟩ := map_ok_inv _ _ _ h; trivial)
+
+/-! ### sequences of pending steps -/
+
+theorem applySteps_append (s₁ s₂ : List Step) (z : Val) :
+    applySteps (s₁ ++ s₂) z = applySteps s₁ z >>= applySteps s₂ := by
+  induction s₁ generalizing z with
+  | nil => rfl
+  | cons s ss ih =>
+    simp only [List.cons_append, applySteps]
+    cases applyStep s z with
+    | error e => rfl
+    | ok z' => exact ih z'
+
+theorem specSteps_append (s₁ s₂ : List Step) (z : DVal) :
+    specSteps (s₁ ++ s₂) z = specSteps s₁ z >>= specSteps s₂ := by
+  induction s₁ generalizing z with
+  | nil => rfl
+  | cons s ss ih =>
+    simp only [List.cons_append, specSteps]
+    cases specStep s z with
+    | error e => rfl
+    | ok z' => exact ih z'
+
+theorem applyStep_obs (s : Step) (hs : s.Good) (z : Val) (hz : z.Shaped) :
+    (applyStep s z).map obs = specStep s (obs z) := by
+  cases s with
+  | proj c => exact applyCore_obs c hs.1 z hz
+  | left a op =>
+    simp only [applyStep, specStep, applyLeft]
+    cases specLeft op a (obs z) with
+    | error e => rfl
+    | ok d => simp [Functor.map, Except.map, obs_ofD]
+
+theorem specStep_shaped (s : Step) (d d' : DVal) (hd : d.Shaped) (h : specStep s d = .ok d') : d'.Shaped := by
+  cases s with
+  | proj c => exact specCore_shaped c d d' h
+  | left a op => exact specLeft_shaped op a d d' hd h
+
+theorem applySteps_obs (ss : List Step) (hs : ∀ s ∈ ss, s.Good) (z : Val) (hz : z.Shaped) :
+    (applySteps ss z).map obs = specSteps ss (obs z) := by
+  induction ss generalizing z with
+  | nil => rfl
+  | cons s ss ih =>
+    have h1 := applyStep_obs s (hs s List.mem_cons_self) z hz
+    simp only [applySteps, specSteps]
+    cases h2 : applyStep s z with
+    | error e =>
+      rw [h2] at h1
+      simp only [Except.map] at h1
+      rw [← h1]; rfl
+    | ok z' =>
+      rw [h2] at h1
+      simp only [Except.map] at h1
+      rw [← h1]
+      exact ih (fun s' h' => hs s' (List.mem_cons_of_mem _ h')) z'
+        (specStep_shaped s (obs z) (obs z') hz h1.symm)
+
+/-! ### good geometries -/
+
+theorem Core.Good.transpose {c : Core} (h : c.Good) : c.transpose.Good := by
+  obtain ⟨⟨hlen, hnd, hb, _⟩, hdn, hdb⟩ := h
+  refine ⟨⟨hlen.symm, hdn, hdb, ?_⟩, hnd, hb⟩
+  intro ho; cases ho
+
+theorem maxL_spec (l : List Nat) (m : Nat) (h : maxL l = some m) : m ∈ l ∧ ∀ a ∈ l, a ≤ m := by
+  induction l generalizing m with
+  | nil => cases h
+  | cons a l ih =>
+    simp only [maxL] at h
+    cases hl : maxL l with
+    | none =>
+      rw [hl] at h
+      cases l with
+      | nil => cases h; simp
+      | cons b l =>
+        simp only [maxL] at hl
+        cases h' : maxL l <;> rw [h'] at hl <;> cases hl
+    | some m' =>
+      rw [hl] at h
+      obtain ⟨hm, hle⟩ := ih m' hl
+      simp only [Option.some.injEq] at h
+      by_cases hlt : a < m'
+      · rw [if_pos hlt] at h; subst h
+        refine ⟨List.mem_cons_of_mem _ hm, ?_⟩
+        intro b hb
+        rcases List.mem_cons.mp hb with rfl | hb
+        · omega
+        · exact hle b hb
+      · rw [if_neg hlt] at h; subst h
+        refine ⟨List.mem_cons_self, ?_⟩
+        intro b hb
+        rcases List.mem_cons.mp hb with rfl | hb
+        · omega
+        · have := hle b hb; omega
+
+theorem sizeOr_bound (size? : Option Nat) (idx : List Nat) (n : Nat) (h : sizeOr size? idx = .ok n)
+    (hs : ∀ k, size? = some k → ∀ a ∈ idx, a < k) : ∀ a ∈ idx, a < n := by
+  cases size? with
+  | some k => simp only [sizeOr] at h; cases h; exact hs _ rfl
+  | none =>
+    simp only [sizeOr] at h
+    cases hm : maxL idx with
+    | none => rw [hm] at h; cases h
+    | some m =>
+      rw [hm] at h; cases h
+      intro a ha
+      have := (maxL_spec idx m hm).2 a ha
+      omega
+
+theorem sizeOr_range (k n : Nat) (h : sizeOr none (List.range k) = .ok n) : n = k := by
+  simp only [sizeOr] at h
+  cases hm : maxL (List.range k) with
+  | none => rw [hm] at h; cases h
+  | some m =>
+    rw [hm] at h; cases h
+    obtain ⟨h1, h2⟩ := maxL_spec _ m hm
+    have h3 : m < k := List.mem_range.mp h1
+    cases k with
+    | zero => omega
+    | succ k =>
+      have := h2 k (List.mem_range.mpr (Nat.lt_succ_self k))
+      omega
+
 end PorepyVerif.C36
